@@ -56,7 +56,7 @@ from .seqlib import exc_name
 PROPERTY = "C02"
 DRIVER = "TraitsVerif/Driver/Attr.lean"
 PROPS_MODULES = ["TraitsVerif.Props.C02"]
-TRANSLATORS = ["enums"]
+TRANSLATORS = ["enums", "cattr"]
 RULE = ("exhaustive histories of length <= 3 (quick) / <= 4 (thorough) of {set v, del, read} over 5-value pools "
         "(equal-not-identical pair, NaN, numpy array, rejected value) with a static, an on_trait_change and an observe "
         "handler attached, for comparison_mode none/identity/equality and Event; plus seeded random cases: 1-15 "
@@ -72,6 +72,11 @@ RULE = ("exhaustive histories of length <= 3 (quick) / <= 4 (thorough) of {set v
         "a case is non-trivial when a handler was called, a value stored or an exception raised; distinct = "
         "distinct canonical output line")
 TRUSTED = [
+    "Generated/AttrProg.lean: the source text of setattr_trait / setattr_event / getattr_trait / default_value_for / "
+    "call_notifiers / has_traits_getattro / has_traits_setattro and of the has_notifiers macro, read by "
+    "harness/translate/cattr.py (tokenizer + recursive descent, fails closed) into MiniC terms; the meaning of the "
+    "CPython API calls and of the trait callbacks in Model/MiniC.lean (callPrim, callFPtr, getField: PyDict_* act on "
+    "the one slot, allocation never fails, names are str, NULL default_value reads as None, refcounts dropped) is trusted",
     "`==` / `!=` of user values enter the model as tables (eqv, neq) computed from the real objects per case",
     "validators, post_setattr and handler behaviours are parameters of the model (Callback); the driver "
     "instantiates them from the tables on the case line",
@@ -178,6 +183,15 @@ def corpus():
     out.append(mk_case(base_T(C="0"), names, ["r", "x", "r", "o"], 0, 0, ["c0"],
                        ["rd 1 0", "ro 2", "ra 3 0", "set 3", "set 3", "set 4"]))
     out.append(mk_case(base_T(C="0"), names, ["o", "r", "o"], 1, 0, ["c0"], ["rd 1 0", "ro 2", "set 3", "set 4"]))
+    # object-level handlers only (the trait has no notifier of its own), one unregistering itself during dispatch,
+    # in the first / middle position: the handlers after it still hear that change (call_notifiers walks a snapshot)
+    out.append(mk_case(base_T(C="0"), names, ["x", "o"], 0, 0, [], ["ra 0 0", "ra 1 0", "set 3", "set 4", "set 5"]))
+    out.append(mk_case(base_T(C="2"), names, ["o", "x", "o"], 0, 0, [],
+                       ["ra 0 0", "ra 1 0", "ra 2 0", "set 3", "set 4", "del"]))
+    out.append(mk_case(base_T(K="E"), names, ["x", "x", "o"], 0, 0, [], ["ra 2 0", "ra 1 1", "ra 0 1", "set 3", "set 3"]))
+    # post_setattr raises during the first read: the default stays stored, the next read returns it
+    out.append(mk_case(base_T(C="2", P="k0", D="3"), names, ["o", "o"], 0, 0, [], ["rd 0 0", "ro 1", "get", "get", "set 4", "get"]))
+    out.append(mk_case(base_T(C="0", P="k1", D="2"), names, ["o"], 0, 0, [], ["ra 0 0", "set 3", "del", "get", "get"]))
     return out
 
 
@@ -412,6 +426,56 @@ def random_case(rng):
     return mk_case(T, names, H, RL, RO, S, ops)
 
 
+def dispatch_case(rng):
+    """Notifier lists that change while call_notifiers walks them: 2-4 handlers that are object-level only (the trait
+    has NO notifier of its own: tnotifiers NULL / empty) or mixed with by-name and observe handlers, one or two of
+    them unregistering themselves when called (at their first or a later call), in every list position and with
+    priority registrations; then assignments.  Every handler registered when a change is made hears it exactly
+    once, whatever the others do to the lists meanwhile (the dispatch works on a snapshot)."""
+    names = ["Uninitialized", "Undefined", "None", "int1", "float1", "int7", "str_c", "big_a"]
+    nh = rng.randint(2, 4)
+    only_obj = rng.random() < 0.6
+    roles = ["any"] * nh if only_obj else [rng.choice(["any", "any", "dyn", "obs"]) for _ in range(nh)]
+    H = ["o"] * nh
+    for h in rng.sample(range(nh), rng.randint(1, min(2, nh))):
+        H[h] = rng.choice(["x", "x", "x%d" % rng.randint(1, 2)])
+    if rng.random() < 0.2:
+        H[rng.randrange(nh)] = "r"
+    T = base_T(C=rng.choice("012"), K="E" if rng.random() < 0.15 else "T")
+    order = list(range(nh))
+    rng.shuffle(order)
+    ops = [reg_op(rng, roles[h], h) for h in order]
+    for _ in range(rng.randint(2, 6)):
+        r = rng.random()
+        if r < 0.8:
+            ops.append("set %d" % rng.randint(3, 7))
+        elif r < 0.9:
+            ops.append("del")
+        else:
+            h = rng.randrange(nh)
+            ops.append(reg_op(rng, roles[h], h))
+    return mk_case(T, names, H, 0, 0, [], ops)
+
+
+def first_read_case(rng):
+    """The first read of a never-assigned value during which `post_setattr` raises (at its first or second call):
+    the default has been computed and stored by then and stays stored (getattr_trait's error exit only drops its own
+    reference), so the next read returns that same object without another default computation; handlers of every
+    kind are registered and none is reached by the failing or the later read."""
+    names = ["Uninitialized", "Undefined", "None", "int1", "float1", "int7", "str_c", "big_a"]
+    T = base_T(C=rng.choice("012"), P="k%d" % rng.randint(0, 1), D=rng.choice(["2", "3", "5"]))
+    nh = rng.randint(0, 3)
+    roles = [rng.choice(["any", "dyn", "obs"]) for _ in range(nh)]
+    ops = [reg_op(rng, roles[h], h) for h in range(nh)]
+    if rng.random() < 0.3:
+        ops.append("set %d" % rng.randint(3, 7))
+        ops.append("del")
+    ops += ["get", "get"]
+    for _ in range(rng.randint(0, 3)):
+        ops.append(rng.choice(["get", "set %d" % rng.randint(3, 7), "del"]))
+    return mk_case(T, names, ["o"] * nh, 0, 0, [], ops)
+
+
 def reg_op(rng, role, h):
     if role in ("dyn", "idyn", "pdyn"):
         return "rd %d %d" % (h, 1 if rng.random() < 0.2 else 0)
@@ -431,7 +495,11 @@ def generate(rng, tier):
     else:
         yield from exhaustive(3, EXH_POOLS)
         n = 30000
-    for _ in range(n):
+    for i in range(n):
+        if i % 8 == 0:
+            yield dispatch_case(rng)
+        if i % 40 == 0:
+            yield first_read_case(rng)
         yield random_case(rng)
 
 
